@@ -509,6 +509,12 @@ class FollowSend(SendFilter):
                 q = b"../" + rng.choice(follow.NAMES)
             else:
                 q = b"/".join(rng.choice(follow.NAMES) for _ in range(rng.randint(1, 3)))
+            if rng.random() < 0.15 and b"/" in q:
+                # a wildcard in a component that is not the last one (the last stays literal)
+                cs = q.split(b"/")
+                i = rng.randrange(len(cs) - 1)
+                cs[i] = rng.choice([b"*", cs[i][:1] + b"*", b"?" * len(cs[i])])
+                q = b"/".join(cs)
             reqs.append(q)
         sf = {"follow": [hx(q) for q in reqs]}
         if rng.random() < 0.25 and paths:
